@@ -71,6 +71,15 @@ def r2_2(ctx):
         ctx.check(fo is not None and norm(fo) == "wrap_overflow == 'fold'", f.fq, short(dl[0]), f"{m.relpath}:{dl[0].lineno}", "long words are folded exactly for overflow='fold'", "fold is not tied to overflow == 'fold'")
     src = norm(lp)
     ctx.check(src.index("expand_tabs(") < src.index("divide_line(") if "expand_tabs(" in src and "divide_line(" in src else False, f.fq, "expand_tabs before divide_line", f"{m.relpath}:{lp.lineno}", "tabs are expanded before widths are measured", "tabs are not expanded before the break offsets are computed")
+    # every produced line is truncated to the width, inside the per-paragraph loop, before it is collected
+    trunc_ok = False
+    for b in lp.body:
+        if isinstance(b, ast.For) and norm(b.iter) == "new_lines":
+            if any(isinstance(c, ast.Call) and isinstance(c.func, ast.Attribute) and c.func.attr == "truncate" and norm(c.func.value) == norm(b.target) and c.args and norm(c.args[0]) == "width" for c in ast.walk(b)):
+                trunc_ok = True
+    ext_idx = [i for i, b in enumerate(lp.body) if "lines.extend(new_lines)" in norm(b)]
+    ctx.check(trunc_ok and bool(ext_idx), f.fq, "for line in new_lines: line.truncate(width, ...)", f"{m.relpath}:{lp.lineno}", "the lines of every paragraph are truncated to the width before being collected",
+              "the final truncate-to-width pass does not run over the lines of every paragraph (it is outside the per-paragraph loop or missing): lines of earlier paragraphs keep over-long words / trailing cells and exceed the width")
     ctx.check("lines.extend(new_lines)" in src and "return lines" in norm(f.node), f.fq, "lines.extend(new_lines)", f.where, "all produced lines are returned in order", "wrap does not collect every produced line in order")
 
 
@@ -172,4 +181,16 @@ def r2_6(ctx):
     ctx.check("self.plain = self.plain.rstrip()" in norm(r.node), r.fq, "self.plain = self.plain.rstrip()", r.where, "rstrip removes trailing whitespace only", "Text.rstrip is not str.rstrip of the plain text")
 
 
-RULES = [r2_1, r2_2, r2_3, r2_4, r2_5, r2_6]
+def r2_7(ctx):
+    from .common import justify_full_units
+    ctx.rule("R2.7", "full justification: the gap distribution in Lines.justify measures the words in cells (cell_len) - the unit of `width` - never in characters, and rebuilds the line from every word, in order; otherwise a line with double-width characters is padded past the width and the final truncate crops characters")
+    justify_full_units(ctx)
+
+
+def r2_8(ctx):
+    from .c05 import r5_1
+    from .common import borrow
+    borrow(ctx, r5_1, "R5.1", "R2.8", " [premise of style-carrying through wrap: tab expansion, append and join keep len() equal to the stored characters, so span offsets stay on their characters]")
+
+
+RULES = [r2_1, r2_2, r2_3, r2_4, r2_5, r2_6, r2_7, r2_8]
